@@ -168,6 +168,21 @@ PROPS = {
         "assumptions": ["loopback UDP neither loses nor reorders at the harness's rates; ICMP port-unreachable is delivered on loopback",
                         "QUIC hops (inline and datagram channel) are not exercised end to end (codec + fragmentation theorems only)"],
     },
+    "C07": {
+        "props_module": "Redproxy.Props.C07",
+        "mode": "c07",
+        "rule": "real SOCKS listeners (open / credentials required: static user list + external command + cache) on loopback: every SOCKS5 offer list "
+                "of length <= 3 over {00,01,02,80,ff} in every order (156 lists) x rotating credential classes (valid static, valid by command, wrong "
+                "password, empty, colliding 'alice:x'/'secret', 255-byte, swapped), SOCKS4 user ids; histories of AuthData::check against the "
+                "external command with cache timeout 1 / 0 / 300 s in real time (command invocations counted); TLS client-certificate matrix "
+                "{http, socks, quic listener} x {tls.client absent, optional, required} x {no cert, valid, foreign CA} with real handshakes "
+                "(tokio-rustls / quinn clients, committed test PKI); upstream matrix {http, socks connector} x {insecure} x {valid, foreign CA, wrong "
+                "name}; non-trivial = every case; distinct = case lines",
+        "nontrivial": lambda c, i: True,
+        "trusted_base": ["auth model Redproxy/Model/Auth.lean tied to socks.rs / auth.rs / tls.rs / quic.rs by correspondence; rustls path validation and "
+                         "name matching are trusted (the model takes their verdicts as inputs)"],
+        "assumptions": ["test PKI under harness/pki (generated once with openssl, 20-year validity)", "QUIC connector upstream verification is modelled (always verifies) but not exercised"],
+    },
     "C08": {
         "props_module": "Redproxy.Props.C08",
         "mode": "c08",
